@@ -32,6 +32,8 @@ ASSUMPTIONS = [
     '(`%s` glued to a following word, a non-ASCII digit, ...) are outside the printer image and measured on the mutation stream',
     'a date-shaped literal that is not a calendar date fails the date rule (FailedSemantics); the text is then read by the '
     'following alternatives (2020-13-45 is 2020 - 13 - 45); modelled in the lexer',
+    'character level is proved (C06_lex_roundtrip / C06_text_roundtrip) for the spelling relation of Model/Spelling.v; the renderer '
+    'additionally flips string quotes and drops a zero integer part of decimals (tested only)',
     'alphabet: code points of the BMP; Unicode decimal digits other than 0-9 (accepted by \\d) are not generated',
     'the in-process parser is tatsu.compile(bql.ebnf) run with BQLSemantics; TatSu passes rule parameters of an interpreted '
     'grammar as one string "Neg::UnaryOp", the harness adapter keeps the first component (as the generated code does)',
@@ -700,6 +702,37 @@ def render(tokens, rng, canonical=False):
     return ''.join(out)
 
 
+# --- the renderer's spacing rule against the proved one ----------------------------------------------------------
+
+SPACE_REPS = [
+    ('TKw KNOT', 'NOT'), ('TKw KSELECT', 'select'), ('TId [115]', 's'), ('TId [115; 117; 109]', 'Sum'),
+    ('TId [95; 120]', '_x'), ('TId [97]', 'a'), ('TInt 7%N', '7'), ('TInt 2020%N', '2020'),
+    ('TDec true 15%N 1%nat', '1.5'), ('TDec true 1%N 0%nat', '1.'), ('TDec false 5%N 1%nat', '.5'),
+    ('TDate 2020%N 1%N 2%N', '2020-01-02'), ('TStr [120]', "'x'"), ('TStr [120]', '"x"'),
+    ('TTable []', '#'), ('TTable [116]', '#t'), ('TPlaceS', '%s'), ('TPlaceS', '%S'), ('TPlaceN [112]', '%(p)s'),
+    ('TPlaceN [112]', '%( P )S'),
+] + [(c, PUNCT[k]) for c, k in [('TLP', 9), ('TRP', 10), ('TLB', 11), ('TRB', 12), ('TComma', 13), ('TDot', 14),
+                                 ('TStar', 15), ('TSlash', 16), ('TPercent', 17), ('TPlus', 18), ('TMinus', 19),
+                                 ('TLt', 20), ('TLe', 21), ('TGt', 22), ('TGe', 23), ('TEq', 24), ('TNe', 25),
+                                 ('TTilde', 26), ('TNotTilde', 27)]]
+
+
+def needs_space_mirror():
+    """C06_text_roundtrip covers a text only if separators are non-empty wherever the Coq predicate needs_space
+    holds: the renderer's own rule must be at least as strict, on every pair of token kinds."""
+    pairs = [(a, b) for a in SPACE_REPS for b in SPACE_REPS]
+    outs = core.coq_eval('c06n', ['Model.Ast', 'Model.Lexer', 'Model.Spelling'],
+                         [f'o_bool (needs_space ({a[0]}) ({b[0]}))' for a, b in pairs], shard=400)
+    loose, strict = [], 0
+    for (a, b), o in zip(pairs, outs):
+        py = needs_space(a[1], b[1])
+        if o == 1 and not py:
+            loose.append((a[1], b[1]))
+        elif o == 0 and py:
+            strict += 1
+    return len(pairs), loose, strict
+
+
 # --- mutations --------------------------------------------------------------------------------------------------
 
 MUT_TOKENS = KW + ['(', ')', ',', '.', '*', '/', '%', '+', '-', '<', '<=', '>', '>=', '=', '!=', '~', '!~', '[', ']',
@@ -1046,6 +1079,11 @@ def run(tier, rng):
         violations.append(core.Violation('parse-not-a-function-of-text', f'parse({text!r}) after parsing case variants of the same text '
                                          f'returned the literal {got!r} instead of {want!r}', {'text': text, 'got': got, 'want': want},
                                          signature='literal-case:' + text))
+    npairs, loose, stricter = needs_space_mirror()
+    for a, b in loose[:2]:
+        violations.append(core.Violation(
+            'needs-space-mirror', f'the renderer may glue {a!r} and {b!r} but the proved predicate needs_space requires a separator',
+            {'left': a, 'right': b}, signature=f'needs-space:{a}|{b}', found_input=False))
     n_rand = 400 if quick else 25000
     nrender = 1 if quick else 2
     n_mut = 1200 if quick else 40000
@@ -1149,6 +1187,8 @@ def run(tier, rng):
         'exhaustive': True,
         'shipped_parser_equals_generated_source': same_source,
         'grammar_rules': nrules,
+        'needs_space_pairs_checked': npairs, 'needs_space_renderer_stricter_on': stricter,
+        'literal_case_sequences': nseq,
         'model_infidelity_on_mutated': {'count': len(infid), 'rate': round(len(infid) / max(1, len(muts)), 5),
                                         'by_class': classes, 'samples': infid[:12]},
     }
